@@ -111,6 +111,40 @@ class PathStub(str):
     """pathlib.Path for the purposes of create_dataset: a comparable, hashable file name."""
 
 
+class FileBytes(bytes):
+    """What `Path(f).read_bytes()` / `open(f,'rb').read()` returns in the model: a marker naming the file (joining several
+    gives plain bytes with several markers, which the generator stub recognises as "files glued together")."""
+    def __new__(cls, path):
+        o = bytes.__new__(cls, b"<file:" + str(path).encode() + b">")
+        o.path = str(path)
+        return o
+
+
+def _native_attr(base, attr):
+    if isinstance(base, PathStub):
+        if attr == "read_bytes":
+            return lambda: FileBytes(base)
+        if attr == "open":
+            return lambda mode="r", *a, **k: Obj(None, __kind__="file", __path__=str(base), read=lambda n=-1: FileBytes(base))
+        if attr == "name":
+            return str(base).rsplit("/", 1)[-1]
+        if attr in ("exists", "is_file"):
+            return lambda: True
+    return NotImplemented
+
+
+def files_of(f):
+    """File names a generator argument stands for: a file object, the bytes of one file, or several files glued together."""
+    import re as _re
+    if isinstance(f, Obj) and "__path__" in f.attrs:
+        return [f.attrs["__path__"]]
+    if isinstance(f, (bytes, bytearray)):
+        return [m.decode() for m in _re.findall(rb"<file:([^>]*)>", bytes(f))]
+    if isinstance(f, str):
+        return [str(f)]
+    raise Unsupported(f"packet_generator is given {type(f).__name__}")
+
+
 class Rec:
     def __init__(self):
         self.arrays = []      # (values, dtype)
@@ -133,8 +167,8 @@ class Rec:
         e.update({
             "np": Obj(None, asarray=asarray, array=asarray), "numpy": Obj(None, asarray=asarray, array=asarray),
             "xr": Obj(None, Dataset=dataset), "xarray": Obj(None, Dataset=dataset),
-            "open": lambda path, mode="r": Obj(None, __kind__="file", __path__=str(path)),
-            "Path": PathStub, "pathlib.Path": PathStub,
+            "open": lambda path, mode="r", *a, **k: Obj(None, __kind__="file", __path__=str(path), read=lambda n=-1: FileBytes(path)),
+            "Path": PathStub, "pathlib.Path": PathStub, "native_attr": _native_attr,
             "collections.defaultdict": collections.defaultdict, "collections": Obj(None, defaultdict=collections.defaultdict),
         })
         return e
@@ -249,9 +283,14 @@ def dataset_rule(ctx: Ctx):
 
         seen_kwargs = []
 
+        glued = []
+
         def pg(selfv, f, **kw):
             seen_kwargs.append(dict(kw))
-            return list(streams[f.attrs["__path__"]])
+            names = files_of(f)
+            if len(names) != 1:
+                glued.append(names)
+            return [p for n in names for p in streams[n]]
         h.it.ext["XtcePacketDefinition.packet_generator"] = pg
         mode = "raw" if raw_mode else "derived"
         try:
@@ -265,10 +304,12 @@ def dataset_rule(ctx: Ctx):
             continue
         # the generator is called with exactly the keyword arguments the caller gave (none here): every packet the
         # generator would yield by default must reach the dataset
-        ctx.decide(all(k2 == {} for k2 in seen_kwargs) and len(seen_kwargs) == 2, "R18.4", f"{fi.key}::{mode}::generator-arguments",
+        ctx.decide(all(k2 == {} for k2 in seen_kwargs) and len(seen_kwargs) == 2 and not glued, "R18.4", f"{fi.key}::{mode}::generator-arguments",
                    "packet_generator called once per file with the caller's keyword arguments only",
-                   f"create_dataset calls packet_generator with {seen_kwargs}: options the caller did not give change which packets "
-                   f"reach the dataset", where=where(fi, fi.node))
+                   (f"create_dataset frames {glued[0]} as one byte stream: framing does not restart at each file, so an incomplete tail "
+                    f"of one file is completed with bytes of the next" if glued else
+                    f"create_dataset calls packet_generator {len(seen_kwargs)} time(s) for 2 files with {seen_kwargs}: options the caller did "
+                    f"not give change which packets reach the dataset"), where=where(fi, fi.node))
         # accumulation: got = {apid: dataset}; dataset.data_vars = {name: (dims, array)}
         want_rows = {3: [("fileB", 0), ("fileA", 0), ("fileA", 1), ("fileA", 1)], 9: [("fileB", 0), ("fileA", 1)]}
         ok_acc = isinstance(got, dict) and sorted(got) == [3, 9]
@@ -355,16 +396,31 @@ def dataset_rule(ctx: Ctx):
     h = Harness(prog, rec.ext({}), max_steps=2_000_000)
     try:
         d = build(h)
-        a = packets_for(3, [0, 1])
-        del a[1]["BO"]
+        last = list(KINDS)[-1]
 
-        def pg2(selfv, f, **kw):
-            return list(a)
-        h.it.ext["XtcePacketDefinition.packet_generator"] = pg2
-        k, got = h.outcome("create_dataset('only', d)", XR, d=d)
-        ctx.decide(k == "raise" and got == "ValueError", "R18.4", f"{fi.key}::field-set-mismatch", "rejected with ValueError",
-                   f"packets of one APID with different field sets: {'accepted' if k == 'ok' else 'raises ' + str(got)}; must be ValueError",
-                   where=where(fi, fi.node))
+        def variant(which):
+            a = packets_for(3, [0, 1, 0])
+            if which == "later packet lacks a field":
+                del a[1][last]
+            elif which == "first packet lacks a field (later ones have more)":
+                del a[0][last]
+            elif which == "middle packet has an extra field":
+                a[1]["EXTRA"] = V("Int", 1)
+            elif which == "same number of fields, one renamed":
+                v = a[2].pop(last)
+                a[2]["OTHER"] = v
+            return a
+        bad = None
+        for which in ("later packet lacks a field", "first packet lacks a field (later ones have more)",
+                      "middle packet has an extra field", "same number of fields, one renamed"):
+            a = variant(which)
+            h.it.ext["XtcePacketDefinition.packet_generator"] = lambda selfv, f, a=a, **kw: list(a)
+            k, got = h.outcome("create_dataset('only', d)", XR, d=d)
+            if not (k == "raise" and got == "ValueError"):
+                bad = (f"packets of one APID with different field sets ({which}): "
+                       f"{'accepted' if k == 'ok' else 'raises ' + str(got)}; must be rejected with ValueError")
+                break
+        ctx.decide(bad is None, "R18.4", f"{fi.key}::field-set-mismatch", "rejected with ValueError", bad or "", where=where(fi, fi.node))
     except Unsupported as e:
         ctx.unknown("R18.4", f"{fi.key}::field-set-mismatch", str(e))
 
